@@ -17,6 +17,11 @@ type Lexer struct {
 	// memo of looksLikeAccount: input[acctScanStart:acctScanEnd] has been
 	// scanned, acctLastColon is the offset of its last colon (or -1)
 	acctScanStart, acctScanEnd, acctLastColon int
+	// memo of looksLikeVirtualAccount: from every offset in
+	// input[virtScanStart:virtScanEnd] the scan ends at virtScanEnd, on a colon
+	// or not
+	virtScanStart, virtScanEnd int
+	virtScanColon              bool
 }
 
 func NewLexer(input string) *Lexer {
@@ -740,16 +745,25 @@ func (l *Lexer) looksLikeDate() bool {
 }
 
 func (l *Lexer) looksLikeVirtualAccount() bool {
-	for i := l.pos + 1; i < len(l.input); i++ {
-		ch := l.input[i]
-		if ch == ')' || ch == '\n' {
-			return false
-		}
-		if ch == ':' {
-			return true
+	// On a line of many "(" every one of them would scan to the same colon,
+	// bracket or line end: remember the answer for the stretch scanned.
+	if l.pos >= l.virtScanStart && l.pos < l.virtScanEnd {
+		return l.virtScanColon
+	}
+	found := false
+	i := l.pos + 1
+scan:
+	for ; i < len(l.input); i++ {
+		switch l.input[i] {
+		case ')', '\n':
+			break scan
+		case ':':
+			found = true
+			break scan
 		}
 	}
-	return false
+	l.virtScanStart, l.virtScanEnd, l.virtScanColon = l.pos, i, found
+	return found
 }
 
 var directiveSet = map[string]struct{}{
